@@ -231,10 +231,10 @@ static void t_case(uint64_t idx, void *ctx)
 }
 
 /* ------------------------------------------------------------------ (4) lifecycle */
-typedef struct { int init, nctx, nbi, kset, cycles, nullreg, scans, argvs, queued; long base; int first_get_ok; } ls_t;
-enum { O_INIT, O_REG_CTX, O_REG_BI, O_PARSE, O_PUT, O_GET, O_FREE, O_REG_NULL, O_DIRSCAN, O_ARGV, O_PARSE_QUEUED, NLOPS };
-static const char *LN[NLOPS] = { "init", "register_context", "register_builtin", "parse(file with %include, blocks, $V)", "expand %put(k v)", "expand x%get(k)y", "free", "register_context(\"null\") again", "expand %dirscan(dir with one file)", "parse_line(NULL, ...) x 10 (lines given on the command line)", "file_push(an open stream), then parse(file): the file is read, then the queued stream" };
-static char g_lfile[300], g_linc[300], g_ldir[300];
+typedef struct { int init, nctx, nbi, kset, cycles, nullreg, scans, argvs, queued, pre; long base; int first_get_ok; } ls_t;
+enum { O_INIT, O_REG_CTX, O_REG_BI, O_PARSE, O_PUT, O_GET, O_FREE, O_REG_NULL, O_DIRSCAN, O_ARGV, O_PARSE_QUEUED, O_PARSE_PREPROC, NLOPS };
+static const char *LN[NLOPS] = { "init", "register_context", "register_builtin", "parse(file with %include, blocks, $V)", "expand %put(k v)", "expand x%get(k)y", "free", "register_context(\"null\") again", "expand %dirscan(dir with one file)", "parse_line(NULL, ...) x 10 (lines given on the command line)", "file_push(an open stream), then parse(file): the file is read, then the queued stream", "parse(file with [%preproc cat] [begin A] [x 1] [end] [y 2]; the preprocessor is emulated and copies its input)" };
+static char g_lfile[300], g_linc[300], g_ldir[300], g_lpre[300];
 static void l_name(int i, char *b, size_t n) { snprintf(b, n, "%s", LN[i]); }
 static void *l_fresh(void)
 {
@@ -243,13 +243,14 @@ static void *l_fresh(void)
     static int lpid; if ((int) getpid() != lpid) { lpid = (int) getpid();
         char d[600]; snprintf(g_linc, sizeof g_linc, "%s/linc-%d.cfg", scratch(), (int) getpid()); snprintf(g_lfile, 290, "%s/lmain-%d.cfg", scratch(), (int) getpid());
         snprintf(d, sizeof d, "<verif-1.0>\nincluded $V\n"); write_file(g_linc, d, strlen(d));
+        snprintf(g_lpre, sizeof g_lpre, "%s/lpre-%d.cfg", scratch(), (int) getpid()); snprintf(d, sizeof d, "<verif-1.0>\n%%preproc cat\nbegin A\nx 1\nend\ny 2\n"); write_file(g_lpre, d, strlen(d));
         snprintf(g_ldir, sizeof g_ldir, "%s/ldir-%d", scratch(), (int) getpid()); mkdir(g_ldir, 0700); snprintf(d, sizeof d, "%s/f", g_ldir); write_file(d, "x", 1);
         snprintf(d, sizeof d, "<verif-1.0>\nbegin A\n%%include %s\n%%include /nonexistent/q\nv $V ${V} ~\nend\n%%put(p q)\n", g_linc); write_file(g_lfile, d, strlen(d));
     }
     s->base = mc_live_bytes();
     return s;
 }
-static int l_enabled(void *vs, int op) { ls_t *s = vs; if (op == O_INIT) return !s->init && s->cycles < 2; if (!s->init) return 0; if (op == O_REG_CTX) return s->nctx < 2; if (op == O_REG_BI) return s->nbi < 2; if (op == O_REG_NULL) return !s->nullreg; if (op == O_DIRSCAN) return s->scans < 1; if (op == O_ARGV) return s->argvs < 1; if (op == O_PARSE_QUEUED) return s->queued < 1; return 1; }
+static int l_enabled(void *vs, int op) { ls_t *s = vs; if (op == O_INIT) return !s->init && s->cycles < 2; if (!s->init) return 0; if (op == O_REG_CTX) return s->nctx < 2; if (op == O_REG_BI) return s->nbi < 2; if (op == O_REG_NULL) return !s->nullreg; if (op == O_DIRSCAN) return s->scans < 1; if (op == O_ARGV) return s->argvs < 1; if (op == O_PARSE_QUEUED) return s->queued < 1; if (op == O_PARSE_PREPROC) return s->pre < 1; return 1; }
 static void l_apply(void *vs, int op)
 {
     ls_t *s = vs; const char *shape = LN[op]; char *b;
@@ -257,7 +258,7 @@ static void l_apply(void *vs, int op)
     env_new_epoch();
     g_env_on = 1; g_allow_fork = 0; g_home = "/h"; g_spawns = 0;
     switch (op) {
-    case O_INIT: spifconf_init_subsystem(); s->init = 1; s->nctx = s->nbi = 0; s->kset = 0; s->nullreg = 0; s->scans = 0; s->argvs = 0; s->queued = 0; break;
+    case O_INIT: spifconf_init_subsystem(); s->init = 1; s->nctx = s->nbi = 0; s->kset = 0; s->nullreg = 0; s->scans = 0; s->argvs = 0; s->queued = 0; s->pre = 0; break;
     case O_PARSE_QUEUED: {      /* the public file stack: a stream queued by the application is read after the file spifconf_parse() is given */
         static char qname[] = "<queued stream>";
         FILE *q = fopen(g_linc, "r");
@@ -265,6 +266,15 @@ static void l_apply(void *vs, int op)
             spif_charptr_t r = spifconf_parse((spif_charptr_t) g_lfile, NULL, NULL); if (!r) FAIL("spifconf_parse", "model:return", shape, "returned NULL"); else FREE(r);
             if (fstate_idx != 0) { FAIL("spifconf_parse", "model:file-stack-not-restored", shape, "file stack index %d after parsing with a queued stream", fstate_idx); fstate_idx = 0; } }
         s->queued++; break; }
+    case O_PARSE_PREPROC: {     /* the preprocessed copy is a temporary file of the parser's: read instead of the original, removed and forgotten when the parse is over */
+        g_exec_emul = 1; g_preprocs = 0; g_preproc_out[0] = 0;
+        spif_charptr_t r = spifconf_parse((spif_charptr_t) g_lpre, NULL, NULL);
+        g_exec_emul = 0;
+        if (!r) FAIL("spifconf_parse", "model:return", shape, "returned NULL"); else FREE(r);
+        if (g_preprocs != 1) FAIL("spifconf_parse", "model:preprocessor-runs", shape, "the preprocessor was started %d times for one %%preproc line", g_preprocs);
+        if (g_preproc_out[0] && access(g_preproc_out, F_OK) == 0) { FAIL("spifconf_parse", "temp-file-left", shape, "the preprocessed copy %s still exists after the parse", g_preproc_out); unlink(g_preproc_out); }
+        if (fstate_idx != 0) { FAIL("spifconf_parse", "model:file-stack-not-restored", shape, "file stack index %d after parsing", fstate_idx); fstate_idx = 0; }
+        s->pre++; break; }
     case O_ARGV: {          /* the fp == NULL mode of spifconf_parse_line: "context text..." given outside any file */
         static char inc[400]; snprintf(inc, sizeof inc, "A %%include %s", g_linc);
         const char *AL[10] = { "A attr value $V", "", "# c", "zz text", "A", "B x", "A %", "A %x", inc, "A %preproc cat" };
@@ -291,7 +301,7 @@ static void l_apply(void *vs, int op)
     g_env_on = 0; g_allow_fork = 1;
     if (g_spawns) FAIL("spifconf", "spawn", shape, "a process was spawned: %s", g_spawn_what);
 }
-static void l_canon(void *vs, char *b, size_t n) { ls_t *s = vs; snprintf(b, n, "init=%d ctx=%d bi=%d k=%d null=%d scans=%d argv=%d queued=%d cycles=%d held=%ld", s->init, s->nctx, s->nbi, s->kset, s->nullreg, s->scans, s->argvs, s->queued, s->cycles, s->init ? 0L : mc_live_bytes() - s->base); }
+static void l_canon(void *vs, char *b, size_t n) { ls_t *s = vs; snprintf(b, n, "init=%d ctx=%d bi=%d k=%d null=%d scans=%d argv=%d queued=%d pre=%d cycles=%d held=%ld", s->init, s->nctx, s->nbi, s->kset, s->nullreg, s->scans, s->argvs, s->queued, s->pre, s->cycles, s->init ? 0L : mc_live_bytes() - s->base); }
 static void l_teardown(void *vs)
 {
     ls_t *s = vs;
